@@ -107,9 +107,8 @@ deriving Repr, DecidableEq
 
 def setHold (c : Chan) (i : Nat) (h : Hold) : Chan := { c with holds := c.holds.set i h }
 
-/-- body of `channel_read_map` after `reader_initialize`, for the reader whose hold is at index `i` -/
-def readMapAt (c : Chan) (r : Rd) (i : Nat) : Chan × Rd × Slice :=
-  let h := c.holds.getD i default
+/-- body of `channel_read_map` after `reader_initialize`, for the reader whose hold `h` is at index `i` -/
+def readMapCore (c : Chan) (r : Rd) (i : Nat) (h : Hold) : Chan × Rd × Slice :=
   if r.mapped then
     (setHold c i ⟨c.head, c.cycle⟩, { r with status := 2 }, ⟨0, 0⟩)
   else if h.pos = c.head ∧ h.cyc = c.cycle then (c, r, ⟨h.pos, 0⟩)
@@ -128,6 +127,9 @@ def readMapAt (c : Chan) (r : Rd) (i : Nat) : Chan × Rd × Slice :=
         else (c', { r with pos := c.head, cyc := c.cycle, mapped := true }, ⟨0, c.head⟩)
       else (c, { r with pos := 0, cyc := h.cyc + 1, mapped := true }, ⟨h.pos, nbytes⟩)
 
+def readMapAt (c : Chan) (r : Rd) (i : Nat) : Chan × Rd × Slice :=
+  readMapCore c r i (c.holds.getD i default)
+
 /-- `channel_read_map` -/
 def readMap (c0 : Chan) (r0 : Rd) : Chan × Rd × Slice :=
   let (c, r) := readerInit c0 r0
@@ -139,15 +141,17 @@ def availBytes (r : Rd) (h : Hold) (high : Nat) : Nat :=
   else if r.pos = 0 then high - h.pos
   else r.pos - h.pos
 
+/-- where `channel_read_unmap` moves the hold `h` of a mapped reader that consumed `k` bytes -/
+def unmapHold (c : Chan) (r : Rd) (h : Hold) (k : Nat) : Hold :=
+  let length := availBytes r h c.high
+  let k := min length k
+  let h1 : Hold := if k ≥ length then ⟨r.pos, r.cyc⟩ else ⟨h.pos + k, h.cyc⟩
+  if c.head < h1.pos ∧ h1.pos = c.high then ⟨0, h1.cyc + 1⟩ else h1
+
 /-- `channel_read_unmap` -/
 def readUnmap (c : Chan) (r : Rd) (k : Nat) : Chan × Rd :=
   if !r.mapped then (c, r) else
   let i := r.id - 1
-  let h := c.holds.getD i default
-  let length := availBytes r h c.high
-  let k := min length k
-  let h1 : Hold := if k ≥ length then ⟨r.pos, r.cyc⟩ else ⟨h.pos + k, h.cyc⟩
-  let h2 : Hold := if c.head < h1.pos ∧ h1.pos = c.high then ⟨0, h1.cyc + 1⟩ else h1
-  (setHold c i h2, { r with mapped := false })
+  (setHold c i (unmapHold c r (c.holds.getD i default) k), { r with mapped := false })
 
 end AcqVerif.Channel
